@@ -47,6 +47,7 @@ SENSITIVITY = [
     ("MC_JsonMap_bug_keyrename.cfg", "KeyIgnoresRename", "RoundTrip"),
     ("MC_JsonMap_bug_renamefirst.cfg", "RenameMustBeFirst", "ShapeOk"),
     ("MC_JsonMap_bug_vecnone.cfg", "VecNoneDropped", "RoundTrip"),
+    ("MC_JsonMap_bug_optinner.cfg", "OptInnerFirst", "RoundTrip"),
     ("MC_JsonMap_bug_tupleobj.cfg", "TupleAsObject", "ShapeOk"),
     ("MC_JsonMap_bug_noneomitted.cfg", "NoneOmitted", "ShapeOk"),
     ("MC_JsonMap_dupkeys.cfg", "AllowDupKeys", "RoundTrip"),
@@ -584,6 +585,11 @@ class RandomInputs:
 
     def type(self, earlier):
         r = self.rng
+        allopt = [n for n in earlier if n in getattr(self, "allopt", ())]
+        if allopt and r.random() < 0.3:
+            # Option<S> / Vec<Option<S>> of a struct S whose members are all optional: S itself reads `null` (every missing key
+            # is read as null), so None and Some(S{None..}) must still be told apart by Option's own look at the value
+            return {"base": "Ref", "a": r.choice(allopt), "w": r.choice([["Opt"], ["Opt"], ["Vec", "Opt"], ["Opt", "Vec"]])}
         if earlier and r.random() < 0.35:
             base = ("Ref", r.choice(earlier))
         else:
@@ -616,6 +622,16 @@ class RandomInputs:
         ks = [f["ren"] if f["hasRen"] else f["id"] for f in fields]
         if len(set(ks)) != len(ks):
             return self.decl(name, earlier)
+        if kind == "named" and r.random() < 0.25:
+            # every member optional (outermost wrapper Option; Option<Option<T>> stays outside the property)
+            for f in fields:
+                if not f["ty"]["w"] or f["ty"]["w"][0] != "Opt":
+                    f["ty"] = dict(f["ty"], w=["Opt"] + list(f["ty"]["w"]))
+            if not hasattr(self, "allopt"):
+                self.allopt = set()
+            self.allopt.add(name)
+        elif hasattr(self, "allopt"):
+            self.allopt.discard(name)          # names are reused from program to program
         return {"name": name, "kind": kind, "via": via, "fields": fields}
 
     def program(self):
